@@ -437,6 +437,73 @@ def calls(pres: int, pair: int, store: str):
             sb.close()
 
 
+def _lookalikes():
+    tz2 = datetime.timezone(datetime.timedelta(hours=2))
+    return [1, True, 1.0, "1", 0, False, 0.0, -0.0, None, "", [1], [True], [1.0], {"a": 1}, {"a": 1.0},
+            datetime.datetime(2020, 1, 1, 12, tzinfo=datetime.timezone.utc), datetime.datetime(2020, 1, 1, 14, tzinfo=tz2),
+            datetime.date(2020, 1, 1), datetime.datetime(2020, 1, 1)]
+
+
+LOOKALIKES = _lookalikes()
+
+
+@obligation(
+    "C04.batch_lookalikes",
+    covers=("python-equal-entries", "identical-entries"),
+    split={"i": list(range(len(LOOKALIKES))), "style": ["call_batch", "map_over_range"]},
+    bounds="one batch (call_batch / map_over_range) of 3 entries whose argument is any of %d look-alike values (third entry: the first 8) (1 / True / 1.0 / '1', "
+           "0 / False / 0.0 / -0.0, None / '', [1] / [True] / [1.0], dict values, equal instants with different offsets, date / midnight): each "
+           "entry gets the result of ITS OWN arguments (type-exact), the body runs once per distinct argument hash, and every entry is "
+           "afterwards memoized under its own key" % len(LOOKALIKES),
+    variables="choice: three value indices, style",
+    budget_s={"quick": 170, "thorough": 600},
+    choice_vars=3,
+)
+def batch_lookalikes(i: int, j: int, k: int, style: str):
+    from vp.memenv import Program, Sandbox
+
+    j = pick(j, len(LOOKALIKES))
+    k = pick(k, 8)
+    with concrete_region():
+        vals = [LOOKALIKES[i], LOOKALIKES[j], LOOKALIKES[k]]
+        sb = Sandbox(kinds="memory")
+        prog = Program("vpc04b")
+        try:
+            prog.exec("@m.memento_function(version='1')\ndef d1(x):\n    _trace.append(x)\n    return [type(x).__name__, repr(x)]\n")
+            d1 = prog.d1
+            ref = d1.fn_reference()
+            effs = [ref.with_args(x=v) for v in vals]
+            hashes = [e.arg_hash for e in effs]
+            want = [[type(e.effective_kwargs["x"]).__name__, repr(e.effective_kwargs["x"])] for e in effs]
+            if any(vals[a] == vals[b] and type(vals[a]) is not type(vals[b]) for a in range(3) for b in range(a + 1, 3)):
+                cover("python-equal-entries")
+            if len(set(hashes)) < 3:
+                cover("identical-entries")
+            if style == "call_batch":
+                got = d1.call_batch([{"x": v} for v in vals])
+                check("each-entry-gets-the-result-of-its-own-arguments", got == want, (repr(vals), got, want))
+            else:
+                hashable = all(not isinstance(v, (list, dict)) for v in vals)
+                if hashable:
+                    res = d1.map_over_range(x=vals)
+                    for v, w in zip(vals, want):
+                        same_key_other_type = any(v == u and (type(v) is not type(u) or repr(v) != repr(u)) for u in vals)
+                        if not same_key_other_type:  # (python-equal values are one key of the returned dict: which one is served is not claimed)
+                            check("range-entry-gets-the-result-of-its-own-arguments", res[v] == w, (repr(vals), repr(res), w))
+                else:
+                    d1.call_batch([{"x": v} for v in vals])
+            check("body-ran-once-per-distinct-argument-hash", len(prog.trace) == len(set(hashes)), (repr(vals), len(prog.trace), hashes))
+            n = len(prog.trace)
+            for v, w in zip(vals, want):
+                check("every-entry-is-memoized-under-its-own-key", d1.memento(v) is not None, repr(v))
+                r = d1(v)
+                check("later-single-call-returns-its-own-result", r == w, (repr(v), r, w))
+            check("later-single-calls-hit", len(prog.trace) == n, (repr(vals), n, len(prog.trace)))
+        finally:
+            prog.close()
+            sb.close()
+
+
 # ------------------------------------------------------------------------------------------------
 # memento functions passed as arguments (with partially bound values), and aliasing between caller and body
 # ------------------------------------------------------------------------------------------------
